@@ -235,3 +235,29 @@ def shape_key(entries):
     for e in sorted(entries, key=lambda e: e.rel):
         h.update(("%s:%d:%s;" % (e.kind, e.level, e.parent.count("/"))).encode())
     return h.hexdigest()[:10]
+
+
+def make_beyond_path_max(parent, rel_prefix_len, sizes=(0, 3, 7, 100, 4097)):
+    """Builds, below the existing directory `parent`, a chain of directories and then files whose paths - as spelled relative to
+    the directory the query is run from (rel_prefix_len = length of that spelling of `parent`) - exceed PATH_MAX (4096), while the
+    deepest directory can still be listed. Works with relative operations only. Returns (relative path of the deepest directory
+    below parent, {file name: size})."""
+    seg = "n" * 180
+    here = os.getcwd()
+    made = {}
+    depth = 0
+    try:
+        os.chdir(parent)
+        while rel_prefix_len + (depth + 1) * (len(seg) + 1) < 4060:
+            os.mkdir(seg)
+            os.chdir(seg)
+            depth += 1
+        for k, sz in enumerate(sizes):
+            nm = "f%d-" % k + "x" * 200
+            with open(nm, "wb") as f:
+                f.write(b"z" * sz)
+            os.chmod(nm, 0o640 if k % 2 else 0o755)
+            made[nm] = sz
+    finally:
+        os.chdir(here)
+    return "/".join([seg] * depth), made
